@@ -281,3 +281,80 @@ Example bulge_example :
   [[([2; 3; 4], [13; 14; 15]); ([5; 6], [10; 11])]].
 Proof. repeat split; vm_compute; reflexivity. Qed.
 Print Assumptions bulge_example.
+
+(* ================================================================= bends from the C-alpha geometry *)
+(* The kappa > 70 degrees test of calculate_bends on EXACT coordinates (Dssp/Bend.v): every float32 coordinate is
+   a dyadic rational, the CA coordinates of a frame are integers in a common unit, and the decision is made on the
+   integers D = (CA_i - CA_i-2).(CA_i+2 - CA_i), A, B = the squared lengths of these two virtual-bond vectors,
+   against a rational enclosure of cos(70 degrees +- guard) that is PROVED against the real numbers (Hbond/AngleR.v:
+   3141592653e-9 < pi < 3141592654e-9, partial sums 7 / 8 of the cosine series, monotonicity of cos and acos).
+   kappa_real D A B = acos(clip(D / sqrt(A B))) is the angle the C code computes, in exact arithmetic.
+   (Statements over R: standard-library real-number axioms and classic.) *)
+From Coq Require Import ZArith QArith Qreals Reals.
+Require Import MD.Hbond.Angle MD.Hbond.AngleR MD.Dssp.Bend MD.Dssp.BendR.
+Local Open Scope nat_scope.
+
+(* the three numbers: dot product and squared lengths of the successive CA(i-2)->CA(i), CA(i)->CA(i+2) vectors *)
+Theorem bend_vectors : forall px py pz tx ty tz nx ny nz : Z,
+  kappa_terms (px, py, pz) (tx, ty, tz) (nx, ny, nz) =
+  (((tx - px) * (nx - tx) + (ty - py) * (ny - ty) + (tz - pz) * (nz - tz))%Z,
+   ((tx - px) * (tx - px) + (ty - py) * (ty - py) + (tz - pz) * (tz - pz))%Z,
+   ((nx - tx) * (nx - tx) + (ny - ty) * (ny - ty) + (nz - tz) * (nz - tz))%Z).
+Proof. exact kappa_dot_meaning. Qed.
+Print Assumptions bend_vectors.
+
+(* sure side: a positive answer implies kappa > deg degrees over the reals *)
+Theorem bend_sure_is_sound : forall deg p t nx D A B, kappa_terms p t nx = (D, A, B) ->
+  (0 < A)%Z -> (0 < B)%Z -> (0 <= Q2R deg < 180)%R ->
+  kappa_gt true deg p t nx = true -> (Q2R deg * PI / 180 < kappa_real D A B)%R.
+Proof. exact kappa_sure_sound. Qed.
+Print Assumptions bend_sure_is_sound.
+
+(* maybe side: kappa > deg degrees over the reals implies a positive answer *)
+Theorem bend_maybe_is_complete : forall deg p t nx D A B, kappa_terms p t nx = (D, A, B) ->
+  (0 < A)%Z -> (0 < B)%Z -> (0 <= Q2R deg < 180)%R ->
+  (Q2R deg * PI / 180 < kappa_real D A B)%R -> kappa_gt false deg p t nx = true.
+Proof. exact kappa_maybe_complete. Qed.
+Print Assumptions bend_maybe_is_complete.
+
+(* as found: with coinciding CA atoms the C code's 0/0 passes through the CLIP macro as -1, kappa = pi: a bend *)
+Theorem bend_degenerate_as_found : forall sure deg p t nx D A B, kappa_terms p t nx = (D, A, B) ->
+  (A * B = 0)%Z -> kappa_gt sure deg p t nx = true.
+Proof. exact kappa_degenerate. Qed.
+Print Assumptions bend_degenerate_as_found.
+
+(* the bend condition of the rule model (turn_bend_rule) with the flags computed from the coordinates *)
+Theorem bend_from_coordinates : forall sure deg n ch skip ca r, List.length ca = n ->
+  (is_bend n ch skip (geom_flags sure deg ca) r = true <->
+   2 <= r /\ r + 2 < n /\ chain_at ch (r - 2) = chain_at ch (r + 2) /\
+   skip_at skip (r - 2) = false /\ skip_at skip r = false /\ skip_at skip (r + 2) = false /\
+   exists p t nx, ca_at ca (r - 2) = Some p /\ ca_at ca r = Some t /\ ca_at ca (r + 2) = Some nx /\
+                  kappa_gt sure deg p t nx = true).
+Proof. exact is_bend_xyz. Qed.
+Print Assumptions bend_from_coordinates.
+
+(* the two rational bounds compiled into the correspondence are the ends of the enclosure at 70 +- 1/1000 degree *)
+Theorem bend_bounds : 
+  bend_k_sure = cos_bound true (Qplus bend_deg bend_guard) /\
+  bend_k_maybe = cos_bound false (Qminus bend_deg bend_guard).
+Proof. exact bend_bounds_are_the_enclosure. Qed.
+Print Assumptions bend_bounds.
+
+(* non-vacuity: a right angle is certainly a bend, a straight continuation certainly is not *)
+Example bend_example :
+  kappa_gt true 70 (1, 0, 0)%Z (0, 0, 0)%Z (0, 1, 0)%Z = true /\
+  kappa_gt false 70 (0, 0, 0)%Z (1, 0, 0)%Z (2, 0, 0)%Z = false /\
+  kappa_terms (1, 0, 0)%Z (0, 0, 0)%Z (0, 1, 0)%Z = (0, 1, 1)%Z.
+Proof. repeat split; vm_compute; reflexivity. Qed.
+Print Assumptions bend_example.
+
+(* ================================================================= 'NA' from the topology's atom names *)
+(* The incomplete-residue mask is not an input of the end-to-end model any more: it is derived from the residues'
+   atom names by the model of _prep_kabsch_sander_arrays (Hbond/KsWrap.v, shared with C14).  compute_dssp reports
+   'NA' for residue r iff the residue has no atom named N, or CA, or C, or O.  (Closed.) *)
+Require Import MD.Hbond.KsWrap MD.Hbond.KsWrapProofs.
+Theorem na_iff_backbone_name_missing : forall simp ch rs hb geom r d, r < List.length rs ->
+  (nth r (compute_dssp simp (List.length rs) ch (skip_of rs) hb geom) ""%string = "NA"%string <->
+   ~ (has_atom "N" (nth r rs d) /\ has_atom "CA" (nth r rs d) /\ has_atom "C" (nth r rs d) /\ has_atom "O" (nth r rs d))).
+Proof. exact BendR.na_iff_backbone_name_missing. Qed.
+Print Assumptions na_iff_backbone_name_missing.
